@@ -217,4 +217,6 @@ func genC03(g *Gen) {
 	c03GenRaw(g)
 	// (5) widening: the child rule (c03child.go)
 	c03GenChild(g)
+	// (6) widening: from a key to its index, PathOf then PathToIndex(Loose) (c03key.go)
+	c03GenKey(g)
 }
